@@ -19,8 +19,11 @@ WS == SeqsOver({1, 3, 4}, MaxLen)
 \* predictions also use slot 7 = xxy: "x y" with a letter written where the blank was
 WSP == SeqsOver({1, 3, 4, 7}, MaxLen)
 Spelling == IF ~Fam("spelling") THEN {} ELSE
-    {[kind |-> "spelling", input |-> <<a>>, pred |-> <<p>>, target |-> <<t>>, bn |-> b[1], bd |-> b[2], g |-> FALSE] :
+    {[kind |-> "spelling", input |-> <<a>>, pred |-> <<p>>, target |-> <<t>>, bn |-> b[1], bd |-> b[2], g |-> FALSE, lead |-> FALSE] :
         a \in WS, p \in WSP, t \in WS, b \in Betas}
+    \* lead: every text starts with the same word of three two-code-point characters, grapheme mode
+    \cup {[kind |-> "spelling", input |-> <<a>>, pred |-> <<p>>, target |-> <<t>>, bn |-> 1, bd |-> 1, g |-> TRUE, lead |-> TRUE] :
+        a \in WS, p \in WSP, t \in WS}
 
 RECURSIVE Spaced(_, _, _)
 Spaced(content, gaps, k) ==
